@@ -501,7 +501,9 @@ def run_case(case, ctx):
 
 
 POLICY_SHAPES = ["absent", "empty", "allow-create-only", "format-persistent", "format-persistent+spnq", "format-transient", "format-unspecified",
-                 "spnq-only"]
+                 "spnq-only",
+                 # the requester asks for an identifier in ANOTHER provider's name space (allowed to the members of an affiliation only)
+                 "format-persistent+other-sp-qualifier", "other-sp-qualifier-only"]
 
 
 def run_server_logins(case, ctx, rng, counters, viols, sigs):
@@ -520,7 +522,10 @@ def run_server_logins(case, ctx, rng, counters, viols, sigs):
     else:
         pol["default"]["nameid_format"] = PERS if lf == "persistent" else TRANS
     mds = [fed.metadata_of(fed.sp_conf(eid=e, endpoints={"assertion_consumer_service": [(e.replace("/md", "/acs"), fed.BINDING_HTTP_POST)]})) for e in sps]
-    idp = fed.make_idp(fed.idp_conf(policy=pol), mds)
+    idc = fed.idp_conf(policy=pol)
+    # (the same entity is an attribute authority too, with the same policy: attribute responses for a user go through the same store)
+    idc["service"]["aa"] = {"endpoints": {"attribute_service": [("https://idp.example.org/aa/soap", "urn:oasis:names:tc:SAML:2.0:bindings:SOAP")]}, "policy": copy.deepcopy(pol)}
+    idp = fed.make_idp(idc, mds)
     persistent = {}      # (user, sp qualifier) -> text
     owner = {}           # text -> (user, sp qualifier)
     trace = []
@@ -533,8 +538,18 @@ def run_server_logins(case, ctx, rng, counters, viols, sigs):
                    "format-persistent": NameIDPolicy(format=PERS, allow_create="true"),
                    "format-persistent+spnq": NameIDPolicy(format=PERS, sp_name_qualifier=sp),
                    "format-transient": NameIDPolicy(format=TRANS), "format-unspecified": NameIDPolicy(format=UNSPEC, allow_create="true"),
-                   "spnq-only": NameIDPolicy(sp_name_qualifier=sp)}[shape]
+                   "spnq-only": NameIDPolicy(sp_name_qualifier=sp),
+                   "format-persistent+other-sp-qualifier": NameIDPolicy(format=PERS, sp_name_qualifier=[x for x in sps if x != sp][0]),
+                   "other-sp-qualifier-only": NameIDPolicy(sp_name_qualifier=[x for x in sps if x != sp][0])}[shape]
             trace.append((u, sp.split("//")[1].split(".")[0], shape))
+            if rng.random() < 0.3:
+                # an attribute response for the same user in between (the caller names the user, not an identifier)
+                try:
+                    idp.create_attribute_response({"givenName": ["x"]}, "id-aq-%d" % i, sp.replace("/md", "/acs"), sp, userid=u)
+                    counters["attribute_responses_in_between"] = counters.get("attribute_responses_in_between", 0) + 1
+                    trace.append((u, sp.split("//")[1].split(".")[0], "attribute-response"))
+                except Exception as exc:
+                    counters["attribute_response_refused:" + type(exc).__name__] = counters.get("attribute_response_refused:" + type(exc).__name__, 0) + 1
             try:
                 xml = "%s" % idp.create_authn_response({"givenName": ["x"]}, "id-%d" % i, sp.replace("/md", "/acs"), sp, userid=u,
                                                        name_id_policy=nip, authn=fed.AUTHN)
